@@ -13,6 +13,7 @@ def main(tier, seed):
     quick = tier == 'quick'
     items = []
     items += fam_tt.template_family(seed, tier)
+    items += fam_tt.exit_templates()
     items += fam_tt.random_tt(seed + 3, 45 if quick else 500)
     core = fam_tt.core_family(seed + 1, tier)
     import random
